@@ -78,20 +78,32 @@ fn check_case(case: &Case, st: &mut Stats) -> Result<(), String> {
     for (kind, idx, u1, u2, w) in &case.points {
         let i = *idx as usize % n;
         if kind % 4 == 3 {
-            // a point built from the *reported* geometry only: between the reported centre and a point
-            // of the reported boundary ring, on the sphere; interiority is then judged by the planar oracle
-            let ring = api::boundary_vecs(id, 8)?;
-            let b = ring[(*idx as usize * 7 + (u2 * 40.0) as usize) % ring.len()];
-            let t = 0.05 + 0.93 * u1;
+            // a point built from the *reported* geometry only: between the reported centre and a point of
+            // the reported boundary ring, on the sphere. Interiority is judged against the reported polygon
+            // (finely subdivided ring, outside its sagitta band), as the property's second sentence says.
+            let info = contain::ring_info(id, &c, contain::ring_subdivisions(c.res))?;
+            let m = info.ring.len();
+            let per_edge = m / n;
+            // half of the time aim at a corner of the polygon, otherwise at any ring point
+            let k = if *idx & 1 == 0 { (i * per_edge) % m } else { ((*idx as usize) * 7919 + (u2 * m as f64) as usize) % m };
+            let b = info.ring[k];
+            let t = if w[0] < 0.5 { 0.05 + 0.93 * u1 } else { 1.0 - 10f64.powf(-2.5 + 2.0 * u1) };
             let p = unit(add(scale(cv, 1.0 - t), scale(b, t)));
-            let margin = contain::planar_signed_dist(&c, p)?;
-            if margin < contain::STRICT {
-                st.hit("in-rounding-band-or-outside(counted, not asserted):between-centre-and-reported-ring");
+            let (rv, rt) = info.test(p);
+            if std::env::var("A5VERIF_DEBUG").is_ok() {
+                st.fmax(&format!("dbg-band/cap-res{:02}", c.res), info.band / info.cap);
+            }
+            if rv != contain::RingVerdict::Inside || rt.dist < 4.0 * contain::STRICT {
+                st.hit(&format!("not-asserted:ring-point:{:?}:t{}", rv, if t > 0.98 { ">0.98" } else { "<=0.98" }));
+                if std::env::var("A5VERIF_DEBUG").is_ok() && t <= 0.9 {
+                    st.sample(true, || json!({"DBG": true, "res": c.res, "t": t, "dist": rt.dist, "band": info.band, "cap": info.cap, "winding": rt.winding, "label": label}));
+                }
+                st.hit("in-edge-band-or-outside(counted, not asserted):between-centre-and-reported-ring");
                 continue;
             }
             let (lon, lat) = lonlat_of_vec(p);
-            lookup_expect(lon, lat.clamp(-90.0, 90.0), id, &c, "point between the reported centre and the reported boundary", margin)?;
-            st.hit("asserted:between-centre-and-reported-ring");
+            lookup_expect(lon, lat.clamp(-90.0, 90.0), id, &c, "point inside the reported boundary polygon (between the reported centre and a ring point)", rt.dist)?;
+            st.hit(if t > 0.98 { "asserted:inside-reported-ring-near-its-boundary" } else { "asserted:between-centre-and-reported-ring" });
             st.eval();
             if c.res >= 2 {
                 st.nontrivial(&(id, p[0].to_bits(), p[1].to_bits()));
